@@ -19,12 +19,12 @@ only where the rate law reads a dissolved amount (family approach_c, library rat
 that the very same run reports (the closed form presupposes an exactly closed balance; closure is C02's clause and
 is asserted separately here with C02's tolerance).
 
-Probe on the unchanged tree (grids of 6 000 + 3 400 + 1 600 runs, first order / approach / chain, tol 1e-6..1e-12,
-k*T 1e-3..20, m0 1e-3..1): global error / tol
-  Runge-Kutta 1/2/3/6, any -step_divide, <= 20 steps       <= 0.03 (M-only laws), closure-limited for approach_c
-  CVODE order 5, no restart, n chained integrations          n=1: <= 17, n=4: <= 35, n=8: <= 50, n=20: <= 106
-  CVODE order 4 / 3 / 2 / 1 (single integration)             <= 69 / 390 / 3 000 / 33 000  (error ~ tol^(q/(q+1)))
-  CVODE with -cvode_steps <= 50 (restart path)               up to 1.5e10 (0.2 * m0), silently
+Probe on the unchanged tree (grids of 6 000 + 3 400 + 1 600 runs and random searches of 15 000 runs; first order /
+approach / chain, tol 1e-6..1e-12, k*T 1e-3..20, m0 1e-3..1): largest global error / tol
+  Runge-Kutta 1/2/3/6, any -step_divide, <= 20 steps       <= 0.4 (M-only laws), closure-limited for approach_c
+  CVODE order 5, no restart, n chained integrations          n=1: 44, n=2: 47, n=4: 68, n=8: 50+, n=20: 167
+  CVODE order 4 / 3 / 2 / 1 (single integration)             69 / 390 / 3 000 / 33 000  (error ~ tol^(q/(q+1)))
+  CVODE with -cvode_steps <= 50 (restart path)               up to 1.5e10 (0.2 * m0), silently; none seen at >= 70
 => two known findings (see replays/C12/known): K1 the CVODE restart path resumes from a rejected trial solution;
 K2 with CVODE the global error is not bounded by 100*tol for -cvode_order <= 4 or for many chained integrations.
 Both trigger classes are excluded BY CONSTRUCTION from the accuracy clauses (exact solution, path independence) and
@@ -50,8 +50,8 @@ RULE = ("Hypothesis-generated KINETICS/RATES problems. Closed-form families: zer
         "steps, explicit list <= 20 steps} x {INCREMENTAL_REACTIONS true,false} x {-runge_kutta 1/2/3/6 with -step_divide/-bad_step_max, "
         "-cvode with -cvode_order 1-5 / -cvode_steps 20-20000 / -bad_step_max} x {batch, ADVECTION 1 cell, TRANSPORT 1 cell with flux or "
         "constant boundaries (sub-mixes)}, each way in a fresh instance; the first two ways are always accuracy-bearing (Runge-Kutta, or "
-        "CVODE order 5 without restart and <= 4 chained integrations), the third may lie in a known-finding class (CVODE order <= 4, "
-        "-cvode_steps <= 100, > 4 chained integrations) where only the tolerance-free clauses are asserted. Library leg: phreeqc.dat RATES "
+        "CVODE order 5 without restart and <= 2 chained integrations), the third may lie in a known-finding class (CVODE order <= 4, "
+        "-cvode_steps <= 100, > 2 chained integrations) where only the tolerance-free clauses are asserted. Library leg: phreeqc.dat RATES "
         "Calcite, Pyrite, Organic_C, K-feldspar, Albite, Quartz in their documented set-ups, same relations without the closed form. "
         "Non-trivial = the reaction moved > 1e-3 of m0, the bound 100*tol is < 10 % of the amount moved, >= 2 accuracy-bearing ways "
         "completed and the case is not a pure exhaustion; distinct by SHA-256 of the case")
@@ -78,7 +78,7 @@ SALTS = {"NaCl": {"Na": 1, "Cl": 1}, "KBr": {"K": 1, "Br": 1}, "LiCl": {"Li": 1,
 ELS = ["Na", "K", "Li", "Cl", "Br", "N"]
 SOLNAME = {"N": "N(5)"}
 TOLS = [1e-6, 1e-7, 1e-8, 1e-9, 1e-10, 1e-11, 1e-12]
-ACC_MAX_CHAINED = 4          # CVODE (order 5, no restart): accuracy clauses asserted up to this many chained integrations
+ACC_MAX_CHAINED = 2          # CVODE (order 5, no restart): accuracy clauses asserted up to this many chained integrations
 NO_RESTART_STEPS = 1000      # -cvode_steps >= this never reaches the restart path in the generated domain (probe: <= 1000 steps needed)
 
 
@@ -121,15 +121,12 @@ def acc_way(draw, hosts):
         w["incr"] = True
         const = host == "transport_const"
         if const:
+            # CVODE: keep the chained integrations (shifts x sub-mixes; probe: 1 per shift for pure diffusion with mixx <= 0.6,
+            # 3 per shift with flow) within ACC_MAX_CHAINED by construction
             w["mixx"] = draw(cg.uni(0.1, 0.6 if cv else 4.0, 3))           # 4*D*dt/L^2 -> 1..7 mixing sub-steps
-            w["flow"] = draw(st.sampled_from(["diffusion_only", "forward", "back"]))
-        # CVODE: keep the chained integrations (shifts x sub-mixes; probe: 1 per shift for pure diffusion with mixx <= 0.6,
-        # 3 per shift with flow) within ACC_MAX_CHAINED by construction
-        nmax = ((2 if w["flow"] == "diffusion_only" else 1) if const else ACC_MAX_CHAINED) if cv else 12
-        w["part"] = {"type": "equal", "n": draw(st.integers(1, nmax))}
-        if const:
-            pass
-        elif host == "transport_flux":
+            w["flow"] = "diffusion_only" if cv else draw(st.sampled_from(["diffusion_only", "forward", "back"]))
+        w["part"] = {"type": "equal", "n": draw(st.integers(1, ACC_MAX_CHAINED if cv else 12))}
+        if host == "transport_flux":
             w["flow"] = draw(st.sampled_from(["forward", "back"]))
     return w
 
@@ -660,7 +657,7 @@ def check_case(case, ctx, probe=None):
         classes.append("part=%s/%s" % (w["part"]["type"], "incr" if w["incr"] else "cum"))
         if w["integ"]["type"] == "rk" and w["integ"]["step_divide"] is not None:
             classes.append("step_divide" + (">1" if w["integ"]["step_divide"] > 1 else "<1"))
-        classes.append("chained=%s" % ("1" if nch == 1 else "2-4" if nch <= 4 else "5-20" if nch <= 20 else ">20"))
+        classes.append("chained=%s" % ("1" if nch == 1 else "2" if nch == 2 else "3-20" if nch <= 20 else ">20"))
     if not finals:
         raise Discard("no_accuracy_bearing_way_completed")
     # ---- any two ways of reaching T agree within 100*tol
